@@ -204,6 +204,10 @@ func (l *List) M__iter__() (Object, error) {
 }
 
 func (l *List) M__getitem__(key Object) (Object, error) {
+	key, err := ResolveIndex(key)
+	if err != nil {
+		return nil, err
+	}
 	if slice, ok := key.(*Slice); ok {
 		start, _, step, slicelength, err := slice.GetIndices(len(l.Items))
 		if err != nil {
@@ -231,6 +235,11 @@ func (l *List) M__setitem__(key, value Object) (Object, error) {
 		if err != nil {
 			return nil, err
 		}
+		if resolved, err := ResolveIndex(slice); err != nil {
+			return nil, err
+		} else {
+			slice = resolved.(*Slice)
+		}
 		start, stop, step, slicelength, err := slice.GetIndices(len(l.Items))
 		if err != nil {
 			return nil, err
@@ -256,6 +265,10 @@ func (l *List) M__setitem__(key, value Object) (Object, error) {
 			}
 		}
 	} else {
+		key, err := ResolveIndex(key)
+		if err != nil {
+			return nil, err
+		}
 		i, err := IndexIntCheck(key, len(l.Items))
 		if err != nil {
 			return nil, err
@@ -272,6 +285,10 @@ func (a *List) DelItem(i int) {
 
 // Removes items from a list
 func (a *List) M__delitem__(key Object) (Object, error) {
+	key, err := ResolveIndex(key)
+	if err != nil {
+		return nil, err
+	}
 	if slice, ok := key.(*Slice); ok {
 		start, stop, step, slicelength, err := slice.GetIndices(len(a.Items))
 		if err != nil {
